@@ -1037,8 +1037,11 @@ class HistGen:
         popts = rng.choice((P_ONLY, 0, P_ONLY | P_OPAQ, P_STRICT))
         if self.stream != "opaq":
             popts &= ~P_OPAQ
-        # F64: full validation (no LYD_VALIDATE_PRESENT) of a subtree parse leaks the implicit top-level nodes when it fails - seed only
-        vopts = 0 if popts & P_ONLY else V_PRESENT
+        # F64 / F68: validation of a subtree parse (leaks implicit top-level nodes when it fails; goes on with an auto-deleted first
+        # child): full validation only in the seed, LYD_VALIDATE_PRESENT only in the "subval" stream
+        if self.stream != "subval":
+            popts |= P_ONLY
+        vopts = 0 if popts & P_ONLY == P_ONLY else V_PRESENT
         self.emit("parse:subtree", O("pinp", s, inst_path(par) or "@%d" % rng.randrange(20), fmt, popts, vopts, d.encode("utf-8", "surrogateescape")))
 
     def g_roundtrip(self):
@@ -1564,6 +1567,8 @@ class HistGen:
             fams = [f for f in fams if f not in ("g_merge", "g_diff")] + ["g_new_node"] * 6 + ["g_meta"] * 4
         if stream == "multierr":
             fams += ["g_parse"] * 30
+        if stream == "subval":
+            fams += ["g_parse_sub"] * 30
         # start with something alive
         self.g_parse()
         while len(self.ops) < nops:
@@ -1621,6 +1626,16 @@ def seed_f63():
 def seed_f64():
     """lyd_parse_data() with a parent and full validation that fails: implicit top-level nodes made by the validation are lost"""
     return 0, FORCE_LSAN, [O("px", 2, 0, P_ONLY, 0, '<c xmlns="urn:lfa"><li><k>b</k><ic><x>on</x></ic></li></c>'), O("pinp", 2, "/lfa:c/li[k='b']/ic", 1, P_STRICT, 0, "{}")]
+
+
+def seed_f68():
+    """lyd_parse_data() with a parent and validation: the first parsed child (empty container of another case) is auto-deleted"""
+    return 2, 4, [O("np", 2, 0, "/lfd:r/m1", "x"), O("pinp", 2, "/lfd:r", 0, P_STRICT, V_PRESENT, '<m2 xmlns="urn:lfd"></m2><kb xmlns="urn:lfd"><k>false</k></kb>')]
+
+
+def seed_f70():
+    """LYB parse without LYD_PARSE_OPAQ of data that hold an opaque node with XML prefix data"""
+    return 0, FORCE_LSAN | 4, [O("no", 2, None, "lfa", "c", "a&b", "pfx", 1), O("rt", 2, 3, 2, 2, P_ONLY, 0)]
 
 
 def seed_f65():
@@ -1724,10 +1739,23 @@ def _ctxopts(line):
     return int(t[4]) if len(t) > 4 and t[4].isdigit() else 0
 
 
+def _has_destruct_merge(line):
+    return _ops_with(line, ("mt", "ms"), lambda n, r: int(r[2]) & 1)
+
+
+def _has_validating_subparse(line):
+    return _ops_with(line, ("pinp",), lambda n, r: int(r[3]) & P_ONLY != P_ONLY)
+
+
+def _has_lyb_parse_without_opaq(line):
+    return _ops_with(line, ("rt",), lambda n, r: r[2] == "2" and not (int(r[4]) & P_OPAQ))
+
+
 UB_SIGNATURES = [
-    # (finding, function of frame #0, fragment of the UBSan message)
-    ("F66", "lyht_dup_inst_ht_equal_cb", "applying zero offset to null pointer"),
-    ("F67", "lyd_diff_userord_attrs", "applying non-zero offset"),
+    # (finding, function of frame #0, fragment of the UBSan message, extra condition on the history)
+    ("F66", "lyht_dup_inst_ht_equal_cb", "applying zero offset to null pointer", None),
+    ("F67", "lyd_diff_userord_attrs", "applying non-zero offset", None),
+    ("F69", "rb_compare_lists", "member access within null pointer", _has_destruct_merge),
 ]
 
 
@@ -1743,8 +1771,8 @@ def classify(component, what, case):
         if not m:
             u = re.search(r"runtime error: ([^\n]*)\n(?:[^\n]*\n){0,3}?\s*#0 0x[0-9a-f]+ in (\S+)", err)
             if u:
-                for fid, fn, frag in UB_SIGNATURES:
-                    if u.group(2) == fn and frag in u.group(1):
+                for fid, fn, frag, cond in UB_SIGNATURES:
+                    if u.group(2) == fn and frag in u.group(1) and (cond is None or cond(line)):
                         return fid
             return None
         kind, frames, freedby = m.group(1), m.group(2).split(","), (m.group(3) or "").split(",")
@@ -1760,6 +1788,9 @@ def classify(component, what, case):
             return "F62"
         if kind == "heap-use-after-free" and (_ctxopts(line) & 0x400) and any(f.startswith("lyd_free_leafref") for f in frames[:3]):
             return "F63"
+        if kind == "heap-use-after-free" and _has_validating_subparse(line) and "lyd_validate" in frames[:3] and "lyd_parse" in frames and \
+                any(f.startswith("lyd_validate_autodel") for f in freedby):
+            return "F68"
         return None
     rep = case.get("reply") or ""
     lk = re.search(r"leakat=(\S+)", rep)
@@ -1779,8 +1810,10 @@ def classify(component, what, case):
     if law == "leak" and leakat.startswith(("lyd_create_", "lyd_new_implicit")) and _has_full_validation_subparse(line):
         return "F64"
     if law in ("leak", "eint") and _ops_with(line, ("ac", "acs"), lambda n, r: len(r) > 4 and r[4] == "1") and \
-            (law == "eint" or leakat in ("ly_set_add", "xml_print_ns", "-")):
+            (law == "eint" or leakat.startswith(("ly_set_add<xml_print_ns", "-"))):
         return "F65"
+    if law == "leak" and _has_lyb_parse_without_opaq(line) and "lyb_parse_prefix_data" in leakat:
+        return "F70"
     return None
 
 
@@ -1899,13 +1932,13 @@ def run_life(cx, workers=None):
             "failing library call")
 
     hist = []       # (set, ctxopts, ops, kinds, stream)
-    for s in (seed_f19(), seed_f19_key(), seed_f21(), seed_f60(), seed_f61(), seed_f62(), seed_f63(), seed_f64(), seed_f65()):
+    for s in (seed_f19(), seed_f19_key(), seed_f21(), seed_f60(), seed_f61(), seed_f62(), seed_f63(), seed_f64(), seed_f65(), seed_f68(), seed_f70()):
         hist.append((s[0], s[1], s[2], ["seed"] * len(s[2]), "seed"))
     hist += exhaustive_small(gen)
     n = int(os.environ.get("VERIF_LIFE_N", "0")) or cx.n(2200, 60000)
     for i in range(n):
         x = rng.random()
-        stream = "f19" if x < 0.12 else "f60" if x < 0.15 else "multierr" if x < 0.18 else "lrlink" if x < 0.20 else "opaq" if x < 0.32 else "main"
+        stream = "f19" if x < 0.12 else "f60" if x < 0.15 else "multierr" if x < 0.18 else "lrlink" if x < 0.20 else "opaq" if x < 0.32 else "subval" if x < 0.34 else "main"
         si, co, ops, kinds = gen.history(stream)
         if cx.tier == "thorough" or rng.random() < 0.05:
             co |= FORCE_LSAN
